@@ -98,6 +98,11 @@ def cases(tier):
             for sv in (False, True):
                 yield build_doc(depth, ("none",) * (depth + 1), skip_at=lvl), {"s": sv}
                 yield build_doc(depth, ("spread",) + ("none",) * depth, skip_at=lvl, side=1), {"s": sv}
+    # the steering variable left to its declared default (the rule is handed the RAW variables of the request)
+    for depth in (1, 2, 3):
+        for lvl in range(0, depth + 1):
+            yield build_doc(depth, ("none",) * (depth + 1), skip_at=lvl), {}
+            yield build_doc(depth, ("spread",) + ("inline",) * depth, skip_at=lvl).replace("= false", "= true"), {}
     # several operations, anonymous operation, repeated root field, same fragment used twice
     yield "query A { a { b { c } } } query B { x } query C { y { z } }", {}
     yield "{ a { b } }", {}
@@ -129,7 +134,13 @@ def check(tier, seed):
     for text, variables in cases(tier):
         doc = parse(text)
         ops = [d for d in doc.definitions if isinstance(d, A.OperationDefinition)]
-        depths = {(o.name.value if o.name else None): ref_depth_of(doc, o, variables) for o in ops}
+        def effective(o):
+            # what the executor would see: provided values, else the default the operation declares
+            from vf import ref_coerce as RC
+            out = {vd.variable.name.value: RC.untyped(vd.default_value, {}) for vd in o.variable_definitions if vd.default_value is not None}
+            out.update(variables)
+            return out
+        depths = {(o.name.value if o.name else None): ref_depth_of(doc, o, effective(o)) for o in ops}
         filters = [None] + [k for k in depths if k] + ["NoSuchOperation"]      # a filter naming no operation of the document: nothing may be measured
         if (text, tuple(sorted(variables.items()))) not in seen_docs:
             seen_docs.add((text, tuple(sorted(variables.items()))))
